@@ -154,6 +154,20 @@ func (c *Ctx) factoryNonNil(rule, rel, name string) {
 			n++
 			ok := nonNilIface(p.v, map[ssa.Value]bool{})
 			if !ok {
+				// the object may come from a helper and be tested for nil before this return
+				cut := ssau.NewCut()
+				nt := 0
+				for _, i := range ssau.Ifs(f) {
+					if x, trueIsNil, isTest := ssau.NilTest(i.Cond); isTest && ssau.Unwrap(x) == ssau.Unwrap(p.v) {
+						cut.AddEdge(i.Block(), ssau.Arm(i, !trueIsNil)) // remove the non-nil arm: what remains is "object is nil"
+						nt++
+					}
+				}
+				if nt > 0 && !ssau.ReachFromEntry(f, cut).Instr(ret) {
+					ok = true
+				}
+			}
+			if !ok {
 				c.R.Check(rule, name+"|nil error implies an object", false, c.posOf(ret), fmt.Sprintf("%s can return (nil, nil): some path assigns no object and no error, and the decoder dereferences the result", fname(f)))
 				return
 			}
